@@ -150,13 +150,15 @@ theorem sinv_wait {s s' : SSt} {a : Aid} {o : Outs} (hi : SInv s) (h : sstep s (
     obtain ⟨rfl, -⟩ := h
     obtain ⟨hf, hn, ho, hq, hfi, hnd, hpq, hbl⟩ := hi
     by_cases hown : s.m.owner = some a
-    · have hw : s.m.waitFor a .unit = (s.m, some .unit) := by simp [Mutex.waitFor, hown]
+    · have hnq : ∀ q ∈ s.m.queue, q.issuer ≠ a := by
+        intro q hqm e
+        exact (hq q hqm).2.1 (by rw [e]; exact hown)
+      have hgr : s.m.isGranted a = true := by
+        simpa [Mutex.isGranted] using hnq
+      have hw : s.m.waitFor a .unit (s.m.isGranted a) = (s.m, some .unit) := by simp [Mutex.waitFor, hgr]
       simp only [hw]
       have := ho a hown
       simp [pendc, hp] at this
-      have hnq : ∀ q ∈ s.m.queue, q.issuer ≠ a := by
-        intro q hqm e
-        exact (hq q hqm).2.1 (by rw [e]; exact hown)
       refine ⟨hf, ?_, ?_, ?_, hfi, hnd, ?_, hbl⟩
       · intro b hb'
         have hba : b ≠ a := fun e => hb' (e ▸ hown)
@@ -175,8 +177,15 @@ theorem sinv_wait {s s' : SSt} {a : Aid} {o : Outs} (hi : SInv s) (h : sstep s (
         by_cases hxa : x = a
         · left; rw [hxa]; exact hown
         · exact hpq x (by simpa [upd, hxa] using hx)
-    · have hw : s.m.waitFor a .unit = ({ s.m with queue := markLast a .unit s.m.queue }, none) := by
-        simp [Mutex.waitFor, hown]
+    · have hgr : s.m.isGranted a = false := by
+        rcases hpq a hp with h1 | h1
+        · exact absurd h1 hown
+        · obtain ⟨q, hqm, e⟩ := List.mem_map.mp h1
+          simp only [Mutex.isGranted, Bool.not_eq_false', List.any_eq_true]
+          exact ⟨q, hqm, by simpa using e⟩
+      have hw : s.m.waitFor a .unit (s.m.isGranted a) =
+          ({ s.m with queue := markLast a .unit s.m.queue }, none) := by
+        simp [Mutex.waitFor, hgr]
       simp only [hw, markLast_nodup a .unit s.m.queue hnd]
       have hmapi : (s.m.queue.map (fun x => if x.issuer = a then { x with waited := true, res := Res.unit } else x)).map
           (·.issuer) = s.m.queue.map (·.issuer) := by
